@@ -12,6 +12,8 @@
 //   ce a b              contract_edge(a,b) of an edge
 //   ci a b              contract_edge(a,b) of two non-adjacent vertices (identification)
 //   mk n ; f1 ; f2 ..   make_complex_from_top_faces (constructor from a simplex list, blockers computed by the tries)
+//   lk v..              observe link(Simplex{v..}) (the complex is not modified): answer
+//                       "LK V=<ids> E=<edges> B=<blockers of the link> R=<subsets of the link vertices accepted by contains()>"
 //   cp                  replace the complex by a copy of itself (copy constructor), state must be unchanged
 // answer: "nv=<num_vertices> ne=<num_edges> nb=<num_blockers> V=<active vertices> E=<edges> B=<blocker_range, sorted>
 //          S=<hex mask of contains() over all non-empty subsets of the vertex slots> ns=<num_simplices>
@@ -83,6 +85,34 @@ static std::string dump(const Complex& c, int nslots) {
   return o.str();
 }
 
+static std::string dump_link(const Complex& c, const Simplex& alpha) {
+  typedef Complex::Link_complex Link;
+  Link l = c.link(alpha);
+  std::vector<int> ids; std::vector<Vertex_handle> addr;
+  for (auto v : l.vertex_range()) { addr.push_back(v); ids.push_back(l.get_id(v).vertex); }
+  std::vector<std::vector<int>> V, E, B, R;
+  for (int i : ids) V.push_back({i});
+  for (auto e : l.edge_range()) {
+    int a = l.get_id(l.first_vertex(e)).vertex, b = l.get_id(l.second_vertex(e)).vertex;
+    E.push_back({std::min(a, b), std::max(a, b)});
+  }
+  for (auto b : l.const_blocker_range()) {
+    std::vector<int> v; for (auto x : *b) v.push_back(l.get_id(x).vertex); std::sort(v.begin(), v.end()); B.push_back(v);
+  }
+  size_t n = ids.size();
+  if (n > 10) return "LK TOO-BIG";
+  for (unsigned m = 1; m < (1u << n); ++m) {
+    Simplex s; std::vector<int> v;
+    for (size_t i = 0; i < n; ++i) if (m & (1u << i)) { s.add_vertex(addr[i]); v.push_back(ids[i]); }
+    std::sort(v.begin(), v.end());
+    if (l.contains(s)) R.push_back(v);
+  }
+  std::ostringstream o;
+  o << "LK nv=" << l.num_vertices() << " ne=" << l.num_edges() << " nb=" << l.num_blockers() << " V=" << join_sorted(V)
+    << " E=" << join_sorted(E) << " B=" << join_sorted(B) << " R=" << join_sorted(R);
+  return o.str();
+}
+
 int main() {
   vh::install();
   std::ios::sync_with_stdio(false);
@@ -119,6 +149,7 @@ int main() {
       } else {
         int x;
         while (in >> x) a.push_back(x);
+        if (op == "lk") { vh::emit(dump_link(*c, mk(a))); continue; }
         if (op == "av") c->add_vertex();
         else if (op == "ae") c->add_edge(Vertex_handle(a.at(0)), Vertex_handle(a.at(1)));
         else if (op == "aw") c->add_edge_without_blockers(Vertex_handle(a.at(0)), Vertex_handle(a.at(1)));
